@@ -368,6 +368,54 @@ Proof.
   split; [exact S3|]. split; [exact T|]. destruct V as [V|V]; [left; now apply NC1|now right].
 Qed.
 
+(* ---- C06 as an equivalence on exact positions (no collision involved) ---- *)
+(* the exact rule: the turn end is allowed iff the resulting board differs from the turn's starting board and the
+   resulting position has occurred at most once among the turn-start positions since the last capture *)
+Definition exact_allowed (G : list pos) (b0 nb : pbs) (sd : bool) : Prop :=
+  ~ beq nb b0 /\ (length (filter (fun x => peqb x (nb, sd)) G) <= 1)%nat.
+
+Lemma hash_count_le_exact s G b0 nb : NoCollisionAt s G b0 nb ->
+  (length (filter (fun x => (z_from_piece_board nb (negb (side s)) 0 =? hpos x)%N) G) <=
+   length (filter (fun x => peqb x (nb, negb (side s))) G))%nat.
+Proof.
+  intros [_ NC2]. induction G as [|x G IH]; [apply le_n|]. cbn [filter].
+  assert (length (filter (fun x0 => (z_from_piece_board nb (negb (side s)) 0 =? hpos x0)%N) G) <=
+          length (filter (fun x0 => peqb x0 (nb, negb (side s))) G))%nat as IH'
+    by (apply IH; intros y Hy; apply NC2; now right).
+  destruct (z_from_piece_board nb (negb (side s)) 0 =? hpos x) eqn:E.
+  - apply N.eqb_eq in E. rewrite (peqb_true x (nb, negb (side s)) (NC2 x (or_introl eq_refl) (eq_sym E))). cbn [length]. lia.
+  - destruct (peqb x (nb, negb (side s))); cbn [length]; lia.
+Qed.
+
+Theorem pass_offered_iff s pp G b0 : RepInv s pp G b0 -> NoCollisionAt s G b0 (board s) -> In Pass (valid_actions_no_rep s) ->
+  (In Pass (valid_actions s) <-> exact_allowed G b0 (board s) (negb (side s))).
+Proof.
+  intros RI NC OffN. split.
+  - intros Off. destruct (pass_changes_board s pp G b0 RI Off) as [A B]. split; [exact A|].
+    apply B. intros x _ H. now apply peqb_peq.
+  - intros [A B]. destruct (can_pass s true) eqn:CP.
+    + now apply (can_pass_rep_iff s pp (hi_play s pp (ri_hash _ _ _ _ RI))).
+    + exfalso. assert (~ In Pass (valid_actions s)) as NotV
+        by (intros X; apply (can_pass_rep_iff s pp (hi_play s pp (ri_hash _ _ _ _ RI))) in X; congruence).
+      destruct (withheld_pass_exact s pp G b0 RI NC OffN NotV) as [V|V]; [now apply A|].
+      pose proof (hash_count_le_exact s G b0 (board s) NC). lia.
+Qed.
+
+Theorem fourth_step_offered_iff s pp G b0 i d : RepInv s pp G b0 ->
+  let nb := board (take_action s (Move i d)) in
+  NoCollisionAt s G b0 nb -> In (Move i d) (valid_actions_no_rep s) -> step_of pp = 3 -> trapped pp = false ->
+  (In (Move i d) (valid_actions s) <-> exact_allowed G b0 nb (negb (side s))).
+Proof.
+  intros RI nb NC OffN S3 T. pose proof (hi_play s pp (ri_hash _ _ _ _ RI)) as Inv. split.
+  - intros Off. destruct (fourth_step_changes_board s pp G b0 RI i d Off ltac:(lia) T) as [A B]. split; [exact A|].
+    apply B. intros x _ H. now apply peqb_peq.
+  - intros [A B]. destruct (keep s pp (Move i d)) eqn:K; [rewrite (valid_is_filter s pp Inv); apply filter_In; tauto|exfalso].
+    assert (~ In (Move i d) (valid_actions s)) as NotV
+      by (intros X; rewrite (valid_is_filter s pp Inv) in X; apply filter_In in X; destruct X; congruence).
+    destruct (withheld_step_exact s pp G b0 i d RI NC OffN NotV) as (_ & _ & [V|V]); [now apply A|].
+    pose proof (hash_count_le_exact s G b0 nb NC). fold nb in V. lia.
+Qed.
+
 (* after a capture earlier in the turn nothing is withheld at the fourth step (and rightly so: C05 holds regardless) *)
 Theorem capture_turn_never_withheld s pp i d : PlayInv s pp -> trapped pp = true ->
   In (Move i d) (valid_actions_no_rep s) -> In (Move i d) (valid_actions s).
